@@ -863,6 +863,119 @@ func serveUDPBacklog(slowMs, burst int) string {
 	return fmt.Sprintf("b got %d/1 waited %d slowhandled %d serving %d", got, waited, slowHandled.Load(), stillServing)
 }
 
+// serveMuxLive: the application adds a route to the server's router at run time while one peer's handler is still running
+// (300 ms); another peer's request must be served meanwhile, and the new route must work afterwards.  A handler that
+// registers a route itself (a POST that creates a resource) must return.
+func serveMuxLive() string {
+	l, err := coapNet.NewListenUDP("udp4", "127.0.0.1:0")
+	if err != nil {
+		return "rig-error listen"
+	}
+	defer l.Close()
+	r := mux.NewRouter()
+	inSlow := make(chan struct{}, 1)
+	_ = r.Handle("/slow", mux.HandlerFunc(func(w mux.ResponseWriter, req *mux.Message) {
+		select {
+		case inSlow <- struct{}{}:
+		default:
+		}
+		select {
+		case <-time.After(300 * time.Millisecond):
+		case <-w.Conn().Context().Done():
+		}
+		_ = w.SetResponse(codes.Content, message.TextPlain, bytes.NewReader([]byte("slow")))
+	}))
+	_ = r.Handle("/echo", mux.HandlerFunc(func(w mux.ResponseWriter, req *mux.Message) {
+		body, _ := req.ReadBody()
+		_ = w.SetResponse(codes.Content, message.TextPlain, bytes.NewReader(body))
+	}))
+	_ = r.Handle("/create", mux.HandlerFunc(func(w mux.ResponseWriter, req *mux.Message) {
+		_ = r.Handle("/created", mux.HandlerFunc(func(w mux.ResponseWriter, req *mux.Message) {
+			_ = w.SetResponse(codes.Content, message.TextPlain, bytes.NewReader([]byte("created")))
+		}))
+		_ = w.SetResponse(codes.Created, message.TextPlain, nil)
+	}))
+	s := udp.NewServer(options.WithMux(r), options.WithErrors(func(error) {}))
+	served := make(chan error, 1)
+	go func() { served <- s.Serve(l) }()
+	addr := l.LocalAddr().(*net.UDPAddr)
+	time.Sleep(30 * time.Millisecond)
+	get := func(c *net.UDPConn, path string, tok byte, mid int32, wait time.Duration) bool {
+		m := pool.NewMessage(context.Background())
+		m.SetCode(codes.GET)
+		m.SetToken(message.Token{tok})
+		_ = m.SetPath(path)
+		m.SetType(message.NonConfirmable)
+		m.SetMessageID(mid)
+		bs, _ := m.MarshalWithEncoder(udpcoder.DefaultCoder)
+		_, _ = c.Write(bs)
+		buf := make([]byte, 2048)
+		_ = c.SetReadDeadline(time.Now().Add(wait))
+		n, err := c.Read(buf)
+		if err != nil {
+			return false
+		}
+		rm := pool.NewMessage(context.Background())
+		_, err = rm.UnmarshalWithDecoder(udpcoder.DefaultCoder, buf[:n])
+		return err == nil && (rm.Code() == codes.Content || rm.Code() == codes.Created)
+	}
+	a, err := net.DialUDP("udp4", nil, addr)
+	if err != nil {
+		return "rig-error dial"
+	}
+	defer a.Close()
+	b, err := net.DialUDP("udp4", nil, addr)
+	if err != nil {
+		return "rig-error dial"
+	}
+	defer b.Close()
+	aDone := make(chan bool, 1)
+	go func() { aDone <- get(a, "/slow", 0xA1, 2001, 2*time.Second) }()
+	select {
+	case <-inSlow:
+	case <-time.After(time.Second):
+		return "rig-error slow handler not entered"
+	}
+	added := make(chan struct{})
+	go func() {
+		_ = r.Handle("/added", mux.HandlerFunc(func(w mux.ResponseWriter, req *mux.Message) {
+			_ = w.SetResponse(codes.Content, message.TextPlain, bytes.NewReader([]byte("added")))
+		}))
+		close(added)
+	}()
+	time.Sleep(30 * time.Millisecond)
+	bServed := 0
+	if get(b, "/echo", 0xB1, 3001, 200*time.Millisecond) { // well inside the 300 ms of A's handler
+		bServed = 1
+	}
+	addedInTime := 0
+	select {
+	case <-added:
+		addedInTime = 1
+	case <-time.After(10 * time.Millisecond):
+	}
+	aOK := 0
+	if <-aDone {
+		aOK = 1
+	}
+	newRoute := 0
+	if get(b, "/added", 0xB2, 3002, 500*time.Millisecond) {
+		newRoute = 1
+	}
+	create := 0
+	if get(b, "/create", 0xB3, 3003, 500*time.Millisecond) && get(b, "/created", 0xB4, 3004, 500*time.Millisecond) {
+		create = 1
+	}
+	stopped := 0
+	go s.Stop()
+	select {
+	case <-served:
+		stopped = 1
+	case <-time.After(2 * time.Second):
+	}
+	return fmt.Sprintf("muxlive a %d b %d added %d newroute %d create %d stopped %d", aOK, bServed, addedInTime, newRoute, create, stopped)
+}
+
 // serveTCPMonitor: a stream server whose application installed a request monitor that drops DELETE requests
 // (options.WithRequestMonitor: "drop" = the message is not processed, the connection lives on).  A peer pipelines a dropped
 // request and ordinary ones in ONE write; every ordinary request must be answered, in order, without further traffic.
@@ -1688,6 +1801,8 @@ func TestC10(t *testing.T) {
 			msgs, _ := strconv.Atoi(f[5])
 			if f[1] == "udpwild" {
 				fmt.Fprintln(w, serveUDPWild(good)) // serve udpwild <seed> <slowMs> <unused> <unused>
+			} else if f[1] == "muxlive" {
+				fmt.Fprintln(w, serveMuxLive()) // serve muxlive 0 0 0 0
 			} else if f[1] == "tcpmonitor" {
 				fmt.Fprintln(w, serveTCPMonitor()) // serve tcpmonitor 0 0 0 0
 			} else if f[1] == "udpgiveup" {
